@@ -6,6 +6,11 @@ frame for CALL), so every compile function between the top level and the emitter
 application compiled with flag `tail` ends in `call_op(tail)`.
 """
 
+import os, sys
+sys.path.insert(0, os.path.dirname(os.path.abspath(__file__)))
+import importlib
+import builtin as _b
+importlib.reload(_b)
 P = ['C04']
 PRELUDE = r'''
 use crate::vm::heap::Heap;
@@ -112,10 +117,13 @@ pub assume_specification [Heap::maybe_put_cell] (h: &mut Heap, c: &Cell) -> (r: 
 // helpers of the compile functions whose results the contracts say nothing about
 /// put_cell answers a pointer: an immediate is boxed by Heap::put (heap.rs: `if vcell.is_ptr() { vcell } else { self.put(vcell) }`)
 pub assume_specification [Heap::put_cell] (h: &mut Heap, c: &Cell) -> (r: VCell) ensures r is Ptr;
-/// (proved in unit `heap` against the real body) a value that is not a pointer is boxed in a cell that then holds it
+/// the shared model of Heap::put (specs/builtin.py: PUT_MODEL_TEMPLATE; unit `heap` proves it on the real body), over this module's views
+pub uninterp spec fn heap_live(h: Heap, c: VCell) -> bool;
+pub open spec fn put_model(h0: Heap, h1: Heap, x: VCell, r: VCell) -> bool {
+PUT_MODEL_BODY
+}
 pub assume_specification<T: Into<VCell> + Clone> [Heap::put] (h: &mut Heap, v: T) -> (r: VCell)
-    ensures <T as vstd::std_specs::convert::IntoSpec<VCell>>::obeys_into_spec() && !(<T as vstd::std_specs::convert::IntoSpec<VCell>>::into_spec(v) is Ptr)
-        ==> heap_deref(*final(h), r) == <T as vstd::std_specs::convert::IntoSpec<VCell>>::into_spec(v);
+    ensures <T as vstd::std_specs::convert::IntoSpec<VCell>>::obeys_into_spec() ==> put_model(*old(h), *final(h), <T as vstd::std_specs::convert::IntoSpec<VCell>>::into_spec(v), r);
 pub assume_specification [Cell::is_primitive_symbol] (c: &Cell) -> (r: bool);
 pub assume_specification [Cell::is_symbol] (c: &Cell) -> (r: bool);
 pub assume_specification [Cell::is_vector] (c: &Cell) -> (r: bool) ensures r == (*c is Vector);
@@ -162,6 +170,7 @@ pub proof fn lemma_extends_trans(a: Lambda, b: Lambda, c: Lambda) requires exten
 }
 '''
 
+PRELUDE = PRELUDE.replace('PUT_MODEL_BODY', _b.PUT_MODEL_TEMPLATE.replace('DEREF', 'heap_deref').replace('LIVE', 'heap_live'))
 NODEC = '#[verifier::exec_allows_no_decreases_clause]'
 EXT = (P, 'r is Ok ==> extends(*old(lambda), *final(lambda))')
 # the compiler does not touch the machine registers (eval moves the instruction pointer back after compiling)
